@@ -83,6 +83,7 @@ int main(int argc, char **argv) {
         else if (!strcmp(argv[i], "--dec") && i + 1 < argc) { G.replay_dec = true; parse_dev_list(argv[++i], G.devs_in); }
         else if (!strcmp(argv[i], "--decseed") && i + 1 < argc) { decseed = strtoull(argv[++i], 0, 10); have_decseed = true; }
         else if (!strcmp(argv[i], "--faults") && i + 1 < argc) G.faults_on = atoi(argv[++i]) != 0;
+        else if (!strcmp(argv[i], "--pp") && i + 1 < argc) G.plain_points = atoi(argv[++i]) != 0;
         else if (!strcmp(argv[i], "--tier") && i + 1 < argc) G.tier = !strcmp(argv[++i], "thorough") ? 1 : 0;
         else if (!strcmp(argv[i], "--nosamples")) samples = false;
         else if (!strcmp(argv[i], "--fplist")) fplist = true;
@@ -98,11 +99,11 @@ int main(int argc, char **argv) {
 
     // warm-up run: absorbs lazily initialised statics on the ordinary heap; result discarded
     {
-        bool rp = G.replay_plan, rd = G.replay_dec, fo = G.faults_on;
+        bool rp = G.replay_plan, rd = G.replay_dec, fo = G.faults_on, pp = G.plain_points; G.plain_points = false;
         G.replay_plan = false; G.replay_dec = true; G.warmup = true;   // default schedule: no pre-emption, no faults
         size_t nd = G.devs_in.n; G.devs_in.n = 0;
         run_one(0x5eedull);
-        G.devs_in.n = nd; G.warmup = false; G.replay_plan = rp; G.replay_dec = rd; G.faults_on = fo;
+        G.devs_in.n = nd; G.warmup = false; G.replay_plan = rp; G.replay_dec = rd; G.faults_on = fo; G.plain_points = pp;
     }
     if (one) {
         bool fo = G.faults_on;
